@@ -9,7 +9,7 @@ from nflows.utils import torchutils
 DEFAULT_MIN_BIN_WIDTH = 1e-3
 DEFAULT_MIN_BIN_HEIGHT = 1e-3
 DEFAULT_EPS = 1e-5
-DEFAULT_QUADRATIC_THRESHOLD = 1e-3
+DEFAULT_QUADRATIC_THRESHOLD = 1e-9
 
 
 def unconstrained_cubic_spline(
@@ -231,7 +231,15 @@ def cubic_spline(
 
         # Deal with a -> 0 (almost quadratic) cases.
 
-        quadratic_mask = inputs_a.abs() < quadratic_threshold
+        # Scale-invariant test: dropping the cubic term a*u^3 (u <= bin width) changes the
+        # bin's polynomial by at most |a| * width^3, which must be negligible relative to
+        # the bin's height (an absolute test on |a| misfires when all slopes are small).
+        input_bin_widths = input_right_cumwidths - input_left_cumwidths
+        input_bin_heights = heights.gather(-1, bin_idx)[..., 0]
+        quadratic_mask = (
+            inputs_a.abs() * input_bin_widths.pow(3)
+            < quadratic_threshold * input_bin_heights
+        )
         a = inputs_b[quadratic_mask]
         b = inputs_c[quadratic_mask]
         c = inputs_d[quadratic_mask] - inputs[quadratic_mask]
